@@ -12,5 +12,11 @@ ln -sfn /verif/corpus "$W/corpus"
 rsync -a --delete --exclude target /verif/harness/ "$H/"
 sed -i "s#path = \"/repo\"#path = \"$SRC\"#" "$H/Cargo.toml"
 cd /verif
-VERIF_HARNESS="$H" VERIF_OUT="$O" VERIF_NO_TABLES=1 ./check "$PID" --tier "$TIER" | tail -8
+if [ -n "$VERIF_MUTANT_TABLES" ]; then
+  # table-level changes: private copy of the Lean project, tables regenerated from the scratch repo
+  rsync -a --delete /verif/lean/ "$W/lean/"
+  VERIF_REPO="$SRC" VERIF_LEAN="$W/lean" VERIF_HARNESS="$H" VERIF_OUT="$O" ./check "$PID" --tier "$TIER" | tail -12
+else
+  VERIF_HARNESS="$H" VERIF_OUT="$O" VERIF_NO_TABLES=1 ./check "$PID" --tier "$TIER" | tail -8
+fi
 echo "(replays and evidence of this trial under $O; harness copy $H — remove $W when done)"
